@@ -289,7 +289,10 @@ def radius_class(life, call, var):
     if life["kind"] == "rs":
         return "rational_cosine_radius"
     eps = hl.EPS[var["eps"]]
-    v = max(F(r[0]) + r[1] * eps / 2 for r in call["rad"])
+    pos = [v for v in (F(r[0]) + r[1] * eps / 2 for r in call["rad"]) if v > 0]
+    if not pos:
+        return "radius=0"
+    v = min(pos)                      # per-point radii: the smallest one names the class
     return "radius<1e-5" if v < F(1, 10 ** 5) else ("radius<1" if v < 1 else "radius>=1")
 
 
